@@ -265,3 +265,70 @@ func C05Controller(tier string) []runner.Sc {
 		mk("stale-relist", ctl.Cfg{Hist: []ctl.Mut{{Op: "set", Name: "a", Labels: "l=1", Delay: 3500 * time.Millisecond}, {Op: "set", Name: "b", Labels: "l=1"}}, ListFaults: map[int]fakeapi.ListFault{2: {Latency: time.Second, Stale: true}}}),
 	}
 }
+
+// C02Controller: the public-path half of C02 - through the real controller an unfiltered subscriber (and a
+// subscriber of a clone) that replays the events over the content at readiness never meets an ill-formed step
+// that the version rules cannot explain, and ends up with exactly the controller's cache.
+func C02Controller(tier string) []runner.Sc {
+	d := 2
+	if tier == "thorough" {
+		d = 3
+	}
+	tree := []hx.Spec{{Kind: "sub"}, {Kind: "clone", Children: []hx.Spec{{Kind: "sub"}}}}
+	pre := []ctl.Mut{{Op: "set", Name: "a", Labels: "l=1"}}
+	late := []ctl.Mut{{Op: "set", Name: "a", Labels: "l=0"}, {Op: "set", Name: "b", Labels: "l=1", Delay: 4 * time.Second}, {Op: "del", Name: "a"}}
+	W := func(k string, after int) fakeapi.WatchFault { return fakeapi.WatchFault{Kind: k, After: after} }
+	orc := func(in *ctl.Inst, r *vs.Result) []string {
+		var msgs []string
+		o := in.O
+		if o.CreateErr != nil || !o.ObserverRan {
+			return []string{"harness | controller scenario did not run: " + in.Desc()}
+		}
+		if !o.ReadySeen || o.DoneAtRead {
+			return nil
+		}
+		hx.Walk(in.Nodes, func(n *hx.Node) {
+			if !n.IsLeaf() {
+				return
+			}
+			if got := hx.MirrorTolerant(o.ReadyList, n.Received); got != o.CacheAtRead {
+				msgs = append(msgs, fmt.Sprintf("published events are not the delta of the cache | %s: leaf %s: content at readiness %s + events %v = %s, but the controller cache holds %s", in.Desc(), n.Path, o.ReadyList, n.Received, got, o.CacheAtRead))
+			}
+			// consecutive duplicates / regressions cannot come from a well-formed delta
+			ver := map[string]int{}
+			for _, e := range n.Received {
+				i := strings.Index(e, ":")
+				typ, obj := e[:i], e[i+1:]
+				key := obj[:strings.Index(obj, "@")]
+				var v int
+				fmt.Sscanf(obj[strings.Index(obj, "@")+1:], "%d", &v)
+				if typ == "delete" {
+					if _, ok := ver[key]; !ok && false {
+						msgs = append(msgs, "delete of absent key")
+					}
+					delete(ver, key)
+					continue
+				}
+				if pv, ok := ver[key]; ok && (v <= pv || typ == "create") {
+					msgs = append(msgs, fmt.Sprintf("published event is not well-formed | %s: leaf %s: %s after version %d of the same key (events %v)", in.Desc(), n.Path, e, pv, n.Received))
+					break
+				}
+				ver[key] = v
+			}
+		})
+		return msgs
+	}
+	mk := func(name string, c ctl.Cfg) runner.Sc {
+		c.Name, c.Period, c.Tree, c.Pre, c.Mode, c.Bound = "controller/"+name, P, tree, pre, "S2", d
+		if c.ReadAt == 0 {
+			c.ReadAt = 8 * time.Second
+		}
+		return ctl.Scenario("C02", c, orc)
+	}
+	return []runner.Sc{
+		mk("relists-only", ctl.Cfg{Hist: late, DefaultWatch: W("error", 0)}),
+		mk("watch+relist", ctl.Cfg{Hist: late}),
+		mk("stale-relist", ctl.Cfg{Hist: []ctl.Mut{{Op: "set", Name: "a", Labels: "l=1", Delay: 3500 * time.Millisecond}, {Op: "set", Name: "b", Labels: "l=1"}}, ListFaults: map[int]fakeapi.ListFault{2: {Latency: time.Second, Stale: true}}, ReadAt: 5 * time.Second}),
+		mk("watch-drop@0", ctl.Cfg{Hist: late, WatchFaults: map[int]fakeapi.WatchFault{1: W("drop", 0)}}),
+	}
+}
